@@ -16,9 +16,9 @@ Findings kept explicit:
 * (timeout origin) the timeout is measured from the start of the outbound step that sent the PINGREQ,
   so if writing/flushing the PINGREQ itself is slow the timeout can fire less than ROUND_TRIP after
   the PINGREQ left (`C10_timeout_origin` states exactly what is true).
-* (stale PINGREQ) a PINGREQ queued but not completely flushed before a disconnect stays in the control
-  queue and is replayed on a resumed session, even if the new keep-alive is 0
-  (`C10_oddity_stale_pingreq_replayed`).
+* (stale PINGREQ) a PINGREQ queued but not completely flushed before a disconnect used to stay in the
+  control queue and was replayed on the next connection, even under keep-alive 0: finding F22, repaired
+  in the crate (`arm_replay` drops it); `C10_no_stale_pingreq` states the repaired behaviour.
 -/
 namespace Minimq
 open Gen World Outbound
